@@ -13,7 +13,7 @@ RULE = ("model: NoLeak (quiescent => no ID reserved, both routing tables empty) 
 
 def run(tier):
     return L.run_lane("C13", tier, MC[tier], PROFILES[tier], RULE,
-                      [("snapshot", L.corrupt_snapshot, "book:more")])
+                      [("snapshot", L.corrupt_snapshot, "inv:NoLeak")])
 
 
 def replay(path):
